@@ -29,7 +29,17 @@ def rand_len(rng, small=False):
 def testdata_frames():
     out = []
     for p in sorted(glob.glob(os.path.join(REPO, "testdata", "*.rtcm"))):
-        out.append(open(p, "rb").read())
+        d = open(p, "rb").read()
+        # a file may hold a stream of several frames (msgs_1.rtcm): split it, one entry per frame
+        i = 0
+        while i + 6 <= len(d) and d[i] == 0xD3:
+            n = (((d[i + 1] & 3) << 8) | d[i + 2]) + 6
+            if i + n > len(d):
+                break
+            out.append(d[i:i + n])
+            i += n
+        if i == 0:
+            out.append(d)
     return out
 
 
